@@ -28,6 +28,8 @@ def compare_case(spec, py_status, py_obs, lean_ans, ceil_guard=True):
     if "err" in lean_ans:
         if py_status == "err" and py_obs == lean_ans["err"]:
             return [], 0
+        if lean_ans["err"] == "fixed-instances" and py_status == "ok" and fixed_at_boundary(spec, py_obs):
+            return [], 1      # the user-fixed count equals a need that is an integer up to float rounding: discontinuity
         return [f"model raises {lean_ans['err']} but real code gives {py_status}:{py_obs if py_status=='err' else 'values'}"], 0
     lean_obs = {(o["o"], o["a"], o["k"]): leanio.lean_val(o["v"]) for o in lean_ans["ok"]}
     if py_status == "err":
@@ -38,6 +40,8 @@ def compare_case(spec, py_status, py_obs, lean_ans, ceil_guard=True):
                     mx = max([abs(x) for x in v["vs"]] + [0])
                     if min(v["vs"]) <= mx * 10 ** -9:
                         return [], 1
+        if py_obs == "fixed-instances" and fixed_at_boundary(spec, lean_obs):
+            return [], 1
         return [f"real code raises {py_obs} but the model computes values"], 0
     # ceil/floor discontinuity guard: hours at which the model's raw instance count is (nearly) an integer
     near = {}
@@ -65,6 +69,20 @@ def compare_case(spec, py_status, py_obs, lean_ans, ceil_guard=True):
         if key not in py_obs and key[0] in reach:
             dis.append(f"{key}: produced by the model only")
     return dis, inconclusive
+
+
+def fixed_at_boundary(spec, obs):
+    """some user-fixed instance count equals the peak raw need, which is an integer up to 1e-9 relative"""
+    for kind in ("servers", "storages"):
+        for name, o in spec[kind].items():
+            f = o.get("fixed_nb_of_instances")
+            raw = obs.get((name, "raw_nb_of_instances", ""))
+            if not f or raw is None or raw.get("t") != "h" or not raw.get("vs"):
+                continue
+            peak = max(float(v) for v in raw["vs"]) * float(raw.get("scale", 1))
+            if abs(peak - round(peak)) <= 1e-9 * max(1.0, abs(peak)) and round(peak) == round(float(f["m"])):
+                return True
+    return False
 
 
 def run(seed, n, **genkw):
